@@ -41,7 +41,7 @@ def plan(name, tier):
     # propositional soundness is decided exactly by C03; here a thinner slice runs under schedules/options
     for i, a in enumerate(props):
         # every k-th argument, and every rule-shape argument (a literal against a negated / operand-negated binary)
-        if i % (6 if tier == 'quick' else 2) == 0 or (tier != 'quick' and a.count(':') == 1 and len(a) >= 6 and a.count('N') >= 1 and len(a) <= 8):
+        if i % (6 if tier == 'quick' else 2) == 0 or (a.count(':') == 1 and len(a) >= 6 and a.count('N') >= 1 and len(a) <= 10):
             out.append(('prop', a))
     mod = sweep.modal_args(name, tier)
     fo = sweep.fo_args(name, tier)
